@@ -38,7 +38,7 @@ class Engine:
 
     def configs(self, tier, prop):
         if tier == "quick":
-            return [("nofault", 1500), ("faults", 4500)]
+            return [("nofault", 1000), ("faults", 3500)]
         return [("nofault", 60_000), ("faults", 240_000)]
 
     def chunk_size(self, config, tier):
@@ -228,6 +228,8 @@ class Engine:
         prng = random.Random(plan["pool_seed"])
         pool = texts.make_pool(prng, plan["n_valid"], plan["n_broken"], plan["n_ws"])
         for i, p_ in enumerate(pool):
+            if not p_.get("deep"):
+                continue
             try:
                 self.reference(p_["text"], LABELS[0])
             except RecursionError:
